@@ -7,6 +7,7 @@ calls point(); the scheduler picks the next task among the enabled ones accordin
 sequence being replayed / extended.
 """
 import _thread
+import gc
 import os
 import sys
 import threading
@@ -34,6 +35,7 @@ class VObj:
 
     def __init__(self, kind=None, hint=None):
         s = cur()
+        self._sched = s
         self.vname = s.new_name()
         if kind:
             self.kind = kind
@@ -54,7 +56,7 @@ class VObj:
 
 
 class Op:
-    __slots__ = ("label", "obj", "write", "enabled", "is_yield", "timeout")
+    __slots__ = ("label", "obj", "write", "enabled", "is_yield", "timeout", "early")
 
     def __init__(self, label, obj=None, write=False, enabled=None, is_yield=False, timeout=False):
         self.label = label
@@ -63,6 +65,7 @@ class Op:
         self.enabled = enabled
         self.is_yield = is_yield
         self.timeout = timeout
+        self.early = None       # condition of a timed wait whose timer the environment lets expire early (see vmp.timed)
 
 
 class Task:
@@ -118,6 +121,7 @@ class Task:
 
 
 _CUR = None
+_GC_TICK = [0]
 
 
 def cur():
@@ -228,6 +232,8 @@ class Scheduler:
         t = self.current
         if self.aborting:
             raise Abort()
+        if op.obj is not None and getattr(op.obj, "_sched", self) is not self:
+            raise Abort()       # an object of an earlier execution, operated by left-over clean-up code
         if t is None or t.real is not threading.current_thread():
             raise HarnessError("point() from a thread that does not hold the baton: %r" % op.label)
         t.pending = op
@@ -243,6 +249,8 @@ class Scheduler:
         if self.aborting:
             raise Abort()
         to = t.timed_out
+        if not to and op.early is not None and not op.early():
+            to = t.timed_out = True
         self.after_wake(t)
         t.timed_out = False
         return to
@@ -417,6 +425,13 @@ class Scheduler:
             raise HarnessError("nested execution")
         _CUR = self
         self.leftover_daemons = []
+        # no cyclic garbage collection while an execution runs: a collector pass could finalise a suspended generator
+        # (or another object with a finaliser) left over from an EARLIER execution in the middle of this one, and its
+        # clean-up code would then operate virtual primitives as if it were the running task -- the execution would
+        # no longer be a function of its prefix.  Collections happen between executions instead (_CUR is None there,
+        # so such clean-up code fails at its first virtual operation and is dropped).
+        gc_was = gc.isenabled()
+        gc.disable()
         try:
             holder = {}
 
@@ -447,6 +462,11 @@ class Scheduler:
                         t.lname, t.role, self.outcome, t.state, self.aborting, stack))
         finally:
             _CUR = None
+            _GC_TICK[0] += 1
+            if _GC_TICK[0] % 64 == 0:
+                gc.collect()
+            if gc_was:
+                gc.enable()
         r = ExecResult()
         r.choices = self.choices
         r.points = self.points
@@ -506,6 +526,8 @@ LIB_PREFIX = os.environ.get("VERIF_REPO", "/repo") + "/"
 def _quiet_unraisable(u):
     if isinstance(u.exc_value, Abort):
         return
+    if isinstance(u.exc_value, HarnessError) and "outside an execution" in str(u.exc_value):
+        return      # clean-up code of a finished execution's garbage, run by a collection between executions
     sys.__unraisablehook__(u)
 
 
